@@ -297,9 +297,13 @@ fn c19_async_fleet_seq(case: &Case) {
         sleep_ms(5).await;
         net::refuse_next(addr, 0);
         let (t1, h1) = do_call(&fleet, &mut callno).await;
+        // With a single attempt per call the first healthy call may legitimately be spent on
+        // finding out that the cached connection died silently. Not so when the last thing the
+        // fleet saw was a refused dial: then it holds no connection and must simply dial again.
+        let last_was_refused = log.lock().unwrap().events.last().is_some_and(|e| e.ends_with("Refused"));
         let recovered = if h1.is_ok() {
             true
-        } else if max_attempts == 1 {
+        } else if max_attempts == 1 && !last_was_refused {
             case.probe("second_healthy_call_needed");
             let (_t2, h2) = do_call(&fleet, &mut callno).await;
             h2.is_ok()
